@@ -598,4 +598,48 @@ theorem not_rowChain_of_B {u : List Cell} {k : RowKey} (h : rowChainB u k = fals
     rw [this] at h; cases h
 
 
+/-! ### deciders for the hypotheses of the key-mismatch refusals (audit follow-up) -/
+
+def adjOKB : List Cell → Bool
+  | a :: b :: rest => (!(sameKeys a.values b.values) || dictCompatB a.values b.values) && adjOKB (b :: rest)
+  | _ => true
+
+theorem adjOK_of_B : ∀ {l : List Cell}, adjOKB l = true → AdjOK l
+  | [], _ => trivial
+  | [_], _ => trivial
+  | a :: b :: rest, h => by
+    simp only [adjOKB, Bool.and_eq_true, Bool.or_eq_true, Bool.not_eq_true'] at h
+    refine ⟨?_, adjOK_of_B h.2⟩
+    rcases h.1 with e | e
+    · exact Or.inl e
+    · exact Or.inr (dictCompat_of_B e)
+
+/-- it suffices to check the rows that occur -/
+theorem adjOK_rows_of_B {t : List Cell}
+    (h : ∀ c ∈ t, adjOKB (t.filter (fun x => rowKey x == rowKey c)) = true) (k : RowKey) :
+    AdjOK (t.filter (fun c => rowKey c == k)) := by
+  cases hf : t.filter (fun c => rowKey c == k) with
+  | nil => trivial
+  | cons x0 rest =>
+    have hx : x0 ∈ t.filter (fun c => rowKey c == k) := by rw [hf]; simp
+    obtain ⟨hxu, hxk⟩ := List.mem_filter.mp hx
+    have hxk : rowKey x0 = k := by simpa using hxk
+    have := h x0 hxu
+    rw [hxk, hf] at this
+    exact adjOK_of_B this
+
+def hasMismatchB : List Cell → Bool
+  | a :: b :: rest => !(sameKeys a.values b.values) || hasMismatchB (b :: rest)
+  | _ => false
+
+theorem hasMismatch_of_B : ∀ {l : List Cell}, hasMismatchB l = true → HasMismatch l
+  | [], h => by simp [hasMismatchB] at h
+  | [_], h => by simp [hasMismatchB] at h
+  | a :: b :: rest, h => by
+    simp only [hasMismatchB, Bool.or_eq_true, Bool.not_eq_true'] at h
+    rcases h with e | e
+    · exact Or.inl e
+    · exact Or.inr (hasMismatch_of_B e)
+
+
 end Bermuda.Properties.C04
